@@ -18,6 +18,7 @@ import (
 	"os"
 	"path/filepath"
 	"sort"
+	"sync"
 
 	"github.com/notaryproject/notation-go/dir"
 	"github.com/notaryproject/notation-go/verifharness/lib"
@@ -317,6 +318,7 @@ func main() {
 			r.Violation(map[string]string{"kind": "returned-set"}, fmt.Sprintf("returned %d certificates, the store's files hold %d (multisets of DER differ)", len(got), len(w)), wit)
 		}
 	}, r.PanicViolation("truststore.GetCertificates"))
+	concurrentLoads(r)
 	r.RequireAtLeast("loaded", int64(n/5))
 	r.RequireAtLeast("refused", int64(n/5))
 	r.Finish()
@@ -340,4 +342,48 @@ func subjects(cs []*x509.Certificate) []string {
 		out = append(out, c.Subject.String())
 	}
 	return out
+}
+
+// concurrentLoads: one trust store value, 12 named stores over the three types each holding its own certificate, loaded
+// by 36 goroutines at once (a verifier is shared by concurrent verifications). Each load must return exactly the
+// certificate of the store it named - never the content of a store another goroutine is loading.
+func concurrentLoads(r *lib.Run) {
+	base := lib.TempDir("c13conc")
+	r.OnExit(func() { os.RemoveAll(base) })
+	type st struct {
+		t, name string
+		der     []byte
+	}
+	var stores []st
+	k := 0
+	for _, t := range []string{"ca", "signingAuthority", "tsa"} {
+		for _, nm := range []string{"a", "b", "store-with-a-much-longer-name", "d"} {
+			e := lib.Mint(nil, lib.CertSpec{CN: fmt.Sprintf("c13-conc-%s-%s", t, nm), Kind: "ca", KeyIdx: k % 6})
+			k++
+			d := filepath.Join(base, "truststore", "x509", t, nm)
+			os.MkdirAll(d, 0o755)
+			os.WriteFile(filepath.Join(d, "root.crt"), e.Cert.Raw, 0o644)
+			stores = append(stores, st{t, nm, e.Cert.Raw})
+		}
+	}
+	ts := truststore.NewX509TrustStore(dir.NewSysFS(base))
+	rounds := r.N(150, 3000)
+	var wg sync.WaitGroup
+	for g := 0; g < 36; g++ {
+		wg.Add(1)
+		go func(g int) {
+			defer wg.Done()
+			s := stores[g%len(stores)]
+			for i := 0; i < rounds; i++ {
+				certs, err := ts.GetCertificates(context.Background(), truststore.Type(s.t), s.name)
+				r.Event("concurrent-loads")
+				if err != nil || len(certs) != 1 || !bytes.Equal(certs[0].Raw, s.der) {
+					r.Violation(map[string]string{"kind": "returned-set", "shape": "concurrent-loads"}, fmt.Sprintf("with 36 loads in flight GetCertificates(%s, %s) returned %v (err=%v); the store holds exactly its own certificate", s.t, s.name, subjects(certs), err), nil)
+					return
+				}
+			}
+		}(g)
+	}
+	wg.Wait()
+	r.Eval("concurrent-loads")
 }
